@@ -105,6 +105,20 @@ def atmosphere(a):
         exp = ((1 + v['c'] / 1e6) / ng - 1) * v['d']
         if abs(r[2] - exp) > 1e-12 * max(1, abs(exp)):
             msgs.append('CO2-aware correction %r is not (n_ref/n_g - 1) d = %r' % (r[2], exp))
+    # one atmosphere, several carrier wavelengths one after the other (both orders, two atmospheres): every call is its own closed form
+    for atm, wls in (((15.0, 1013.25, 50.0, 420.0), (0.85, 0.633, 0.85, 1.55)), ((31.5, 905.0, 12.0, 380.0), (0.532, 0.91, 0.532))):
+        t, p_, h, xc = atm
+        for wl in wls:
+            try:
+                got = sv.first_vel_corrn(5000.0, (281.0, 79.0), t, p_, h, None, xc, wl)
+            except Exception as ex:  # noqa
+                msgs.append('first_vel_corrn raised %s: %s' % (type(ex).__name__, ex))
+                continue
+            e = sv.humidity2part_water_vapour_press(h, t)
+            ng = 1 + sv.group_refractivity(wl, t, p_, e, xc) / 1e8
+            exp = ((1 + 281.0 / 1e6) / ng - 1) * 5000.0
+            if abs(got - exp) > 1e-12 * max(1, abs(exp)):
+                msgs.append('CO2-aware correction for wavelength %r after other wavelengths in the same atmosphere is %r, (n_ref/n_g - 1) d = %r' % (wl, got, exp))
     c, d = sv.first_vel_params(0.85, None, 1.000281)
     if abs(c - 281.0) > 1e-6 or abs(d - 273.15 / 1013.25 * (287.6155 + 4.8866 / 0.85 ** 2 + 0.068 / 0.85 ** 4)) > 1e-9:
         msgs.append('first_vel_params %r %r' % (c, d))
